@@ -3,6 +3,7 @@ package rules
 import (
 	"go/token"
 	"go/types"
+	"sort"
 	"strings"
 
 	"gunyucheck/core"
@@ -162,11 +163,17 @@ func ruleAllUnitCommands(w *core.World, r *core.Report, f *ssa.Function, cons st
 			}
 			return true
 		})
-		if ia == nil || !forwardRangeIndex(ia.Index) {
+		if ia == nil {
+			continue
+		}
+		list := ia.X
+		if base, isQueue := consumedFromFront(ia); isQueue {
+			list = base
+		} else if !forwardRangeIndex(ia.Index) {
 			continue
 		}
 		// the slice is a plain load of unit.Commands
-		if core.IsFieldLoad(ia.X, "bisyncReplayUnit", "Commands") && fieldNameOfLoad(s.Args()[0]) == "Cmd" {
+		if core.IsFieldLoad(list, "bisyncReplayUnit", "Commands") && fieldNameOfLoad(s.Args()[0]) == "Cmd" {
 			// the arguments come from the same element
 			same := core.DependsOnDeep(s.Args()[len(s.Args())-1], func(v ssa.Value) bool { return v == ssa.Value(ia) })
 			ok = same
@@ -810,6 +817,18 @@ func ruleResumePointWriters(w *core.World, r *core.Report) {
 		if !has || allowed[core.FuncName(rootOf(g))] {
 			continue
 		}
+		// a helper of the package that only the allowed writers call
+		if core.Transparent != nil && core.Transparent(rootOf(g)) {
+			onlyAllowed := false
+			for owner := range allowed {
+				if calledOnlyFrom(w, rootOf(g), owner) {
+					onlyAllowed = true
+				}
+			}
+			if onlyAllowed {
+				continue
+			}
+		}
 		if hs, ok := helperStores(g); ok {
 			helpers[g] = hs
 		} else {
@@ -924,10 +943,18 @@ func ruleModeFamilies(w *core.World, r *core.Report) {
 		}
 	}
 	if len(modes) < 3 {
+		// ... or the keys of the table it looks the mode up in
+		modes = tableKeys(w, valid)
+		sort.Strings(modes)
+	}
+	if len(modes) < 3 {
 		r.Undecided("BisyncMode/one-recovery-format", valid.Pos(), "the set of valid modes was not read off Valid() (%d found)", len(modes))
 		return
 	}
 	eval := func(f *ssa.Function, mode string) (res, known bool) {
+		if b, ok := foldPredicate(w, f, mode); ok {
+			return b, true
+		}
 		par := ssa.Value(f.Params[0])
 		found := false
 		core.EnumPathsN(f.Blocks[0], 0, 10000, 1, func(p *core.Path) {
@@ -962,6 +989,9 @@ func ruleModeFamilies(w *core.World, r *core.Report) {
 		return res, found
 	}
 	for _, m := range modes {
+		if v, okV := eval(valid, m); okV && !v {
+			continue // not a mode a configuration can select
+		}
 		l, okL := eval(latest, m)
 		fr, okF := eval(frontier, m)
 		if !okL || !okF {
@@ -1026,4 +1056,44 @@ func ruleSyncUnitExecutedOnce(w *core.World, r *core.Report) {
 		return
 	}
 	r.Check(bad == "" && n > 0, "sendBisyncSync/unit-executed-once", pos, "%s", bad)
+}
+
+// consumedFromFront recognises `for q := list; len(q) > 0; q = q[1:] { … q[0] … }`: the element address is
+// &q[0] of a loop variable that starts as the list and drops exactly its first element per round, the loop
+// running while something is left. It returns the list.
+func consumedFromFront(ia *ssa.IndexAddr) (ssa.Value, bool) {
+	ph, ok := ia.X.(*ssa.Phi)
+	if !ok || len(ph.Edges) != 2 || !isConstInt(0)(ia.Index) {
+		return nil, false
+	}
+	var base ssa.Value
+	step := false
+	for _, e := range ph.Edges {
+		if sl, isSl := e.(*ssa.Slice); isSl && sl.X == ssa.Value(ph) && sl.Low != nil && isConstInt(1)(sl.Low) && sl.High == nil && sl.Max == nil {
+			step = true
+		} else {
+			base = e
+		}
+	}
+	if !step || base == nil {
+		return nil, false
+	}
+	// the loop condition, in the variable's block: len(q) > 0 (or != 0), the body on its true edge
+	b := ph.Block()
+	iff, ok := b.Instrs[len(b.Instrs)-1].(*ssa.If)
+	if !ok {
+		return nil, false
+	}
+	c, ok := core.AsCmp(iff.Cond, true)
+	if !ok || !(c.Op == token.GTR || c.Op == token.NEQ) || !isConstInt(0)(c.Y) {
+		return nil, false
+	}
+	lc, ok := c.X.(*ssa.Call)
+	if !ok || !isBuiltin(lc, "len") || lc.Call.Args[0] != ssa.Value(ph) {
+		return nil, false
+	}
+	if !(b.Succs[0] == ia.Block() || b.Succs[0].Dominates(ia.Block())) {
+		return nil, false
+	}
+	return base, true
 }
